@@ -12,7 +12,8 @@
      min_budget    : retiesRemaining default (3) of newRetryState
      reset_guarded : whether retryState.reset() only releases a reservation it holds
      direct_clears_again : whether processError's direct-response branch cancels a pending re-match / re-choose-host
-     direct_cancels_retry : whether that branch releases the retry reservation and cancels a retry set up in the same call *)
+     direct_cancels_retry : whether that branch releases the retry reservation and cancels a retry set up in the same call
+     put_resets_cursor : whether streamfilter.PutStreamFilterChain zeroes the filter cursors before the chain object is pooled *)
 From Coq Require Import List ZArith Bool Arith Lia.
 From RecordUpdate Require Import RecordSet.
 Import ListNotations RecordSetNotations.
@@ -35,7 +36,7 @@ Record sfilter := { sf_verdicts : list verdict (* VContinue | VStop | VTerm *) }
 Inductive route := RouteNone | RouteDirect (code : Z) (body : bool) | RouteNoCluster | RouteForward.
 
 Record srcp := { loop_bound : nat; min_budget : nat; reset_guarded : bool; direct_clears_again : bool; direct_cancels_retry : bool;
-  reason_code : reason -> Z }.
+  put_resets_cursor : bool; reason_code : reason -> Z }.
 
 Record cfg := {
   c_oneway : bool; c_data : bool; c_trailers : bool;
@@ -52,7 +53,7 @@ Record cfg := {
   <c_oneway; c_data; c_trailers; c_route; c_nhosts; c_retry_on; c_num_retries; c_codes; c_try_timeout; c_max_retries; c_recv; c_send;
    c_pool; c_delay>.
 #[export] Instance eta_srcp : Settable _ := settable! Build_srcp
-  <loop_bound; min_budget; reset_guarded; direct_clears_again; direct_cancels_retry; reason_code>.
+  <loop_bound; min_budget; reset_guarded; direct_clears_again; direct_cancels_retry; put_resets_cursor; reason_code>.
 
 Inductive rkind := KUp | KHijack | KDirect.
 Record resp := { r_kind : rkind; r_code : Z; r_data : bool; r_trailers : bool }.
@@ -108,6 +109,12 @@ Definition init_st (rc0 : Z) : st :=
      has_upreq := false; up_sender := false; up_alive := false; nnew := 0; cur := 0;
      rsp := None; route_matched := false; rcursor := 0; scursor := 0; fcalls := []; scalls := []; delayed := []; rc := rc0;
      global_ever := false; x_loop := false; x_upf := false; x_nog := false |}.
+
+(* The filter chain object of a finished stream goes back to a pool (streamfilter.PutStreamFilterChain) and is handed to a later
+   stream: the next request served by the same pooled object starts with the cursors that Put left in it. *)
+Definition next_request (src : srcp) (prev : st) (rc0 : Z) : st :=
+  init_st rc0 <| rcursor := if put_resets_cursor src then O else rcursor prev |>
+              <| scursor := if put_resets_cursor src then O else scursor prev |>.
 
 (* ---------- small enumerations ---------- *)
 Definition reason_eqb (a b : reason) : bool :=
